@@ -218,6 +218,20 @@ class C09(Prop):
         if got != attached:
             return [fail('wrong-arguments', 'in %s the command has arguments %r, expected %r'
                          % (short(repr(src), 120), got, attached))]
+        # the same contents through the public views of a group
+        for a, (kind, body) in zip(node.args, attached):
+            if str(a.string) != body or str(a) != ('[%s]' if kind == 'o' else '{%s}') % body:
+                return [fail('wrong-arguments', 'in %s the group %r reports string %r / text %r'
+                             % (short(repr(src), 120), body, str(a.string), str(a)))]
+        if len(attached) == 1 and attached[0][0] == 'r':
+            ctx.count('single_argument_string')
+            try:
+                whole = node.string
+            except Exception as e:       # .string is defined for one brace argument
+                whole = '%s: %s' % (type(e).__name__, e)
+            if str(whole) != attached[0][1]:
+                return [fail('wrong-arguments', 'in %s the command\'s .string is %r, its only argument holds %r'
+                             % (short(repr(src), 120), str(whole), attached[0][1]))]
         if str(node) != '\\' + NAME + ''.join(('[%s]' if k == 'o' else '{%s}') % b for k, b in attached):
             return [fail('wrong-arguments', 'the command prints %r' % str(node))]
         if str(soup) != out:
